@@ -251,11 +251,14 @@ def build_source(flavour, f, rng):
             ser_cb(node, data)
             data["tag"] = "o" if isinstance(node.data, Obj) else "s"
             data["nest"] = dict(NEST)  # a structured value: the maps apply to the entry's own keys, never inside a value
+            data["opt"] = 0 if isinstance(node.data, Obj) else None  # None / 0 are values like any other: the key is stored
             return data
 
         def deser_mixed(parent, data):
             if data.get("nest") != NEST:
                 raise ValueError(f"structured value came back altered: {data.get('nest')!r}")
+            if data["opt"] is not (0 if data["tag"] == "o" else None):  # KeyError if the key was not stored
+                raise ValueError(f"attribute 'opt' came back as {data['opt']!r}")
             if data["tag"] == "o":  # KeyError if an entry was written without consulting the mapper
                 return Obj(data["name"], data["type"], data["data_id"], data.get("age"))
             return data["str"]
